@@ -1,10 +1,15 @@
-(* Executable model of the integrand assembled by sympde.expr.expr.Norm / SemiNorm and
+(* Follows the library as repaired by 8b3531a (the Hessian term of H2 uses Inner), d70b390 (Dot_1d / Inner_1d
+   accept the scalars returned by Grad_1d / Hessian_1d; Inner_1d exists) and 1e0454e (Dot_2d / Dot_3d: matrix . vector
+   and vector . matrix arms).  The model of the library before these repairs is wip/C11/NormM.v; what it did is
+   kept as short historical lemmas in Proofs/NormP.v.
+
+   Executable model of the integrand assembled by sympde.expr.expr.Norm / SemiNorm and
    lowered by TerminalExpr (C11), arm for arm:
 
      Norm.__new__ / SemiNorm.__new__   kind x is_vector case split, the shape test, the terms
                                        e*e, Dot(v,v), Dot(Grad e,Grad e), Inner(Grad v,Grad v),
-                                       Dot(Hessian e,Hessian e)
-     TerminalExpr.eval                 '{Op}_{dim}d' dispatch (Inner_1d does not exist)
+                                       Inner(Hessian e,Hessian e)
+     TerminalExpr.eval                 '{Op}_{dim}d' dispatch
      Grad_kd / Hessian_kd tables       (sympde/topology/derivatives.py, physical and Logical twins)
      Dot_kd / Inner_kd tables          (sympde/core/algebra.py): Dot reads its arguments with FLAT
                                        indices u[0],u[1],u[2]; Inner is trace(u^T v)
@@ -118,21 +123,34 @@ Definition hessian_kd (lg : bool) (d : nat) (v : val) : res val :=
 (* ----------------------------------------------------------------------------- Dot_kd *)
 Definition prod2 (a b : sx) : sx := SMul [a; b].
 
+Definition ncols (A : list (list sx)) : nat := match A with [] => 0 | r :: _ => length r end.
+
+(* _is_matrix: a Matrix with more than one column (the (n,1) column that stands for a vector is not one) *)
+Definition is_mat (v : val) : bool :=
+  match v with VM rows => Nat.ltb 1 (ncols rows) | _ => false end.
+
+(* _first_component: u[0] of a Tuple / list / Matrix, the expression itself otherwise *)
+Definition first_comp (v : val) : res sx :=
+  match v with
+  | VS e => Ok e
+  | VT l => of_opt EIndexError (nth_error l 0)
+  | VM rows => of_opt EIndexError (nth_error (concat rows) 0)
+  end.
+
 Definition dot_kd (d : nat) (u v : val) : res sx :=
   match d with
-  | 1 => do a <- vidx u 0; do b <- vidx v 0; Ok (prod2 a b)
-  | 2 => do a0 <- vidx u 0; do b0 <- vidx v 0; do a1 <- vidx u 1; do b1 <- vidx v 1;
-         Ok (SAdd [prod2 a0 b0; prod2 a1 b1])
+  | 1 => do a <- first_comp u; do b <- first_comp v; Ok (prod2 a b)
+  | 2 =>
+      (* matrix . vector and vector . matrix arms: they return a column Matrix, not a scalar; not reached from Norm,
+         whose Dot arguments are a Tuple or a column *)
+      if xorb (is_mat u) (is_mat v) then Er ENotImplemented else
+      do a0 <- vidx u 0; do b0 <- vidx v 0; do a1 <- vidx u 1; do b1 <- vidx v 1;
+      Ok (SAdd [prod2 a0 b0; prod2 a1 b1])
   | 3 =>
-      match u, v with
-      | VM _, VS _ | VM _, VT _ => Er ENotImplemented
-          (* Matrix . vector arm: returns a Tuple, not a scalar; not reached from Norm (u is v) *)
-      | _, _ =>
-          (* the Matrix/Matrix arm and the final arm are the same flat formula *)
-          do a0 <- vidx u 0; do b0 <- vidx v 0; do a1 <- vidx u 1; do b1 <- vidx v 1;
-          do a2 <- vidx u 2; do b2 <- vidx v 2;
-          Ok (SAdd [prod2 a0 b0; prod2 a1 b1; prod2 a2 b2])
-      end
+      if xorb (is_mat u) (is_mat v) then Er ENotImplemented else
+      do a0 <- vidx u 0; do b0 <- vidx v 0; do a1 <- vidx u 1; do b1 <- vidx v 1;
+      do a2 <- vidx u 2; do b2 <- vidx v 2;
+      Ok (SAdd [prod2 a0 b0; prod2 a1 b1; prod2 a2 b2])
   | _ => Er ENameError
   end.
 
@@ -145,7 +163,6 @@ Definition to_matrix (v : val) : res (list (list sx)) :=
   | VM rows => Ok rows
   end.
 
-Definition ncols (A : list (list sx)) : nat := match A with [] => 0 | r :: _ => length r end.
 Definition same_shape (A B : list (list sx)) : bool :=
   Nat.eqb (length A) (length B) && Nat.eqb (ncols A) (ncols B)
   && forallb (fun r => Nat.eqb (length r) (ncols A)) A && forallb (fun r => Nat.eqb (length r) (ncols B)) B.
@@ -161,7 +178,8 @@ Definition inner_kd (d : nat) (u v : val) : res sx :=
   | 2 | 3 =>
       do A <- to_matrix u; do B <- to_matrix v;
       if same_shape A B then Ok (trace_tAB A B) else Er EValueError
-  | _ => Er ENameError                                     (* there is no Inner_1d *)
+  | 1 => do a <- first_comp u; do b <- first_comp v; Ok (prod2 a b)          (* Inner_1d *)
+  | _ => Er ENameError
   end.
 
 (* ------------------------------------------------------------------- Norm / SemiNorm *)
@@ -174,37 +192,12 @@ Definition col0 (rows : list (list sx)) : res (list sx) :=
 
 Definition sq (e : sx) : sx := prod2 e e.
 
-(* 1-D scalars.  The calculus-level constructors Grad / Hessian / Dot are linear over sums and numeric
-   (number or Constant) coefficients and expand at construction (C02), so that Dot_1d only ever receives the
-   pieces dx(r_k) of  e = sum_k c_k r_k (+ a number).  Dot_1d reads them with u[0], which succeeds only on a bare
-   derivative object (DifferentialOperator.__getitem__ returns self) and raises TypeError on anything else. *)
-Definition split_term (t : sx) : sx * sx :=
-  match t with
-  | SMul l => (smul (filter is_number l), smul (filter (fun x => negb (is_number x)) l))
-  | _ => if is_number t then (t, sZ 1) else (sZ 1, t)
-  end.
-
-Definition lin_terms (e : sx) : list (sx * sx) :=
-  match e with SAdd l => map split_term l | _ => [split_term e] end.
-
-Definition lin_d1 (op : sx -> res sx) (e : sx) : res sx :=
-  do l <- mapR (fun cr => if is_number (snd cr) then Ok (sZ 0) else
-                          do a <- op (snd cr);
-                          if is_dobj a then Ok (prod2 (fst cr) a) else Er ETypeError) (lin_terms e);
-  Ok (SAdd l).
-
-(* Dot(Grad e, Grad e) and Dot(Hessian e, Hessian e) of a scalar e, lowered *)
+(* Dot(Grad e, Grad e) and Inner(Hessian e, Hessian e) of a scalar e, lowered *)
 Definition dgrad (lg : bool) (d : nat) (e : sx) : res sx :=
-  match d with
-  | 1 => do g <- lin_d1 (dsc lg 0) e; Ok (prod2 g g)
-  | _ => do a <- grad_kd lg d (VS e); dot_kd d a a
-  end.
+  do a <- grad_kd lg d (VS e); dot_kd d a a.
 
 Definition dhess (lg : bool) (d : nat) (e : sx) : res sx :=
-  match d with
-  | 1 => do h <- lin_d1 (d2 lg 0 0) e; Ok (prod2 h h)
-  | _ => do a <- hessian_kd lg d (VS e); dot_kd d a a
-  end.
+  do a <- hessian_kd lg d (VS e); inner_kd d a a.
 
 (* [semi] = true: SemiNorm.__new__, false: Norm.__new__ ; [lg] = true on a domain without mapping
    (Logical*_kd tables, dx1..dx3), false on a mapped domain (dx..dz) *)
